@@ -1,8 +1,56 @@
 import DendroModel.Basic.Tree
-open DendroModel
+import DendroModel.Model.C20
+open DendroModel DendroModel.C20
+
+def decodeText (s : String) : Option (List Char) :=
+  if s == "=" then some [] else unhex6 s.toList
+
+def encTok (t : List Char) : String := if t.isEmpty then "=" else String.ofList (hex6 t)
+
+def matRes : MatRes → String
+  | .ok rows => "ok " ++ " ".intercalate (rows.map (fun r => toString r.2))
+  | .err _ => "parse"
 
 def handle (ws : List String) : String :=
   match ws with
+  | ["tok", pu, text] =>
+    match decodeText text with
+    | none => "bad-op"
+    | some cs =>
+      if pu != "0" && pu != "1" then "bad-op" else
+      let r := allTokens { pu := pu == "1" } cs
+      let toks := r.1.map (fun (t, q) => (if q then "q" else "p") ++ encTok t)
+      " ".intercalate (toks ++ [if r.2 then "Q" else "E"])
+  | ["newick", text] =>
+    match decodeText text with
+    | none => "bad-op"
+    | some cs =>
+      match readNewick cs with
+      | .ok trees => s!"ok {trees.length} " ++ " ".intercalate (trees.map NTree.render)
+      | .err _ => "parse"
+      | .internal w => "internal " ++ w
+  | ["phylip", strict, inter, syms, text] =>
+    match decodeText syms, decodeText text with
+    | some sy, some cs =>
+      if (strict != "0" && strict != "1") || (inter != "0" && inter != "1") then "bad-op" else
+      matRes (readPhylip (fun c => sy.contains c) (strict == "1") (inter == "1") cs)
+    | _, _ => "bad-op"
+  | ["fasta", syms, text] =>
+    match decodeText syms, decodeText text with
+    | some sy, some cs => matRes (readFasta (fun c => sy.contains c) cs)
+    | _, _ => "bad-op"
+  | ["nexus", dna, rna, nuc, prot, text] =>
+    match decodeText dna, decodeText rna, decodeText nuc, decodeText prot, decodeText text with
+    | some a, some b, some c, some d, some cs =>
+      match readNexus { dna := a, rna := b, nuc := c, prot := d } cs with
+      | .ok s =>
+        "ok tns=" ++ ",".intercalate (s.tns.map (fun t => toString t.labels.length)) ++
+        " trees=" ++ ",".intercalate (s.treeLists.map toString) ++
+        " mats=" ++ "/".intercalate (s.mats.map (fun m => ".".intercalate (m.map toString)))
+      | .error (.parse _) => "parse"
+      | .error (.internal w) => "internal " ++ w
+      | .error (.unmodelled _) => "unmodelled"
+    | _, _, _, _, _ => "bad-op"
   | _ => "bad-op"
 
 def main : IO Unit := do driverLoop (← IO.getStdin) handle
